@@ -417,6 +417,68 @@ func isHeaderOffsetSel(info *types.Info, e ast.Expr) bool {
 	return ok
 }
 
+// isHeaderOffset: the field itself, or a local that is only ever a copy of it
+// (headerOffset := r.headerOffset, read once before a loop).
+func isHeaderOffset(fn *core.Func, e ast.Expr) bool {
+	info := fn.Info()
+	if isHeaderOffsetSel(info, e) {
+		return true
+	}
+	id, ok := ast.Unparen(e).(*ast.Ident)
+	if !ok {
+		return false
+	}
+	obj := info.ObjectOf(id)
+	defs := core.AssignsTo(info, fn.Decl, obj)
+	if len(defs) == 0 {
+		return false
+	}
+	for _, d := range defs {
+		as, ok := d.(*ast.AssignStmt)
+		if !ok || len(as.Lhs) != len(as.Rhs) {
+			return false
+		}
+		for i, l := range as.Lhs {
+			if core.ObjOf(info, l) == obj && !isHeaderOffsetSel(info, as.Rhs[i]) {
+				return false
+			}
+		}
+	}
+	return true
+}
+
+// mentionsHeaderOffset: e contains the header offset, a copy of it, or a
+// local computed from it (limit := size - r.headerOffset).
+func mentionsHeaderOffset(fn *core.Func, e ast.Expr, depth int) bool {
+	info := fn.Info()
+	found := false
+	ast.Inspect(e, func(n ast.Node) bool {
+		x, ok := n.(ast.Expr)
+		if !ok || found {
+			return !found
+		}
+		if isHeaderOffset(fn, x) {
+			found = true
+			return false
+		}
+		if id, isID := x.(*ast.Ident); isID && depth > 0 {
+			if v, isVar := info.ObjectOf(id).(*types.Var); isVar && !v.IsField() && v.Pkg() != nil && v.Parent() != v.Pkg().Scope() {
+				for _, d := range core.AssignsTo(info, fn.Decl, v) {
+					if as, isAs := d.(*ast.AssignStmt); isAs && len(as.Lhs) == len(as.Rhs) {
+						for i, l := range as.Lhs {
+							if core.ObjOf(info, l) == v && mentionsHeaderOffset(fn, as.Rhs[i], depth-1) {
+								found = true
+							}
+						}
+					}
+				}
+			}
+		}
+		return !found
+	})
+	return found
+}
+
 // absoluteOffset decides whether expression e (in fn) denotes an absolute
 // file position: something + r.headerOffset, or a value produced by the
 // functions that return absolute positions.
@@ -429,7 +491,7 @@ func absoluteOffset(c *core.Ctx, fn *core.Func, e ast.Expr, depth int) (bool, st
 	switch x := e.(type) {
 	case *ast.BinaryExpr:
 		if x.Op == token.ADD {
-			if isHeaderOffsetSel(info, x.X) || isHeaderOffsetSel(info, x.Y) {
+			if isHeaderOffset(fn, x.X) || isHeaderOffset(fn, x.Y) {
 				return true, ""
 			}
 			if _, isConst := core.IntConst(info, x.Y); isConst {
@@ -541,11 +603,8 @@ func ruleOffsetProvenance(c *core.Ctx) {
 			if v.Cond.Expr == nil {
 				continue
 			}
-			mentionsPrev, mentionsHO := false, false
+			mentionsPrev, mentionsHO := false, mentionsHeaderOffset(fn, v.Cond.Expr, 2)
 			ast.Inspect(v.Cond.Expr, func(n ast.Node) bool {
-				if e, ok := n.(ast.Expr); ok && isHeaderOffsetSel(fn.Info(), e) {
-					mentionsHO = true
-				}
 				if id, ok := n.(*ast.Ident); ok && id.Name == "prevStart" {
 					mentionsPrev = true
 				}
